@@ -634,10 +634,16 @@ func genSeqPlan(prop string, seed uint64, tier string) *Plan {
 					op.V = genValSpec(r, c, len(p.Keys[op.K]), bias)
 					op.Flag, op.Rev, op.Verb = 0, 0, "set"
 				}
-			case "gc", "merge":
+			case "merge":
 				// (the merge op calls hintMgr.Merge directly; the shipped code reaches a merge only
 				// through GC with merge=on, its automatic start is dead code)
 				op.Kind = "get"
+			case "gc":
+				// GC with hint merging registers every colliding key of the dumped hints in the
+				// collision table before it starts: by design it is safe for colliding keys
+				// (GC without merging is not: recorded finding KF-C13-collide-gc)
+				op.Merge = true
+				op.Pretend = false
 			}
 			if op.Kind == "set" {
 				op.VID = 0 // every value unique
